@@ -33,7 +33,7 @@ META = {
                    "conditions) plus one deterministic (FIFO) two-node schedule with symbolic chain shapes. Global convergence under EVERY "
                    "interleaving and topology is not decided by this technique (DESIGN section 6).",
     "technique": "CrossHair symbolic execution of the sync handlers (step lemmas; chain shapes as symbolic small integers)",
-    "bounds": "locator height < 2^32; service: heights <= 4 (quick) / 6 (thorough), locator <= 3 entries, batch size 3; FIFO schedule: heights <= 5, batch size 2",
+    "bounds": "locator height < 2^32; service: heights <= 4 (quick) / 6 (thorough), requester at any height <= the stored branch, locator <= 3 entries, batch size 3; step: <= 3 peers; FIFO schedule: heights <= 5, batch size 2",
     "outside": "all interleavings / topologies on 2-3 nodes (explicit-state exploration, a different technique); the real batch size 500; timers",
     "stubs": ["node shells", "PyMap", "tagged-identity hashes", "preset ids", "GET_BLOCKS_INVENTORY_SIZE patched (the code is parametric in it)"],
     "assumptions": ["lemma e uses one schedule only"],
@@ -122,15 +122,17 @@ def service(stored_branch: bool, a_fixed: int, rmax: int = 6, twin: bool = False
     env, ns, rpm, ms, mgr = _shell(real)
     N = 3
 
-    def check_service(a: int, r: int, f: int, l1: int, l2: int, nloc: int) -> bool:
+    def check_service(a: int, r: int, f: int, l1: int, l2: int, nloc: int, q: int) -> bool:
         """
         post: _
         """
         if a != a_fixed:
             return True
-        if not (1 <= a <= 6 and 0 <= r <= rmax and 0 <= f <= a and f <= r and 1 <= nloc <= 3):
+        if not (1 <= a <= 6 and 0 <= r <= rmax and 0 <= f <= a and f <= r and 1 <= nloc <= 3 and 0 <= q <= r):
             return True
-        if not (0 <= l2 < l1 < r or nloc == 1 or (nloc == 2 and 0 <= l1 < r)):
+        if not stored_branch and q != r:
+            return True         # X beyond the requester's tip exists only where the responder has stored it
+        if not (0 <= l2 < l1 < q or nloc == 1 or (nloc == 2 and 0 <= l1 < q)):
             return True
         saved = rpm.GET_BLOCKS_INVENTORY_SIZE
         rpm.GET_BLOCKS_INVENTORY_SIZE = N
@@ -148,7 +150,8 @@ def service(stored_branch: bool, a_fixed: int, rmax: int = 6, twin: bool = False
             peer = ns.connect_peer(lp, "10.0.0.1", 1000, "INCOMING")
             sent: List[Any] = []
             peer.send_message = lambda m, prev_header=None: sent.append(m)
-            heights = [r, l1, l2][:nloc]
+            # the requester has X[0..q] (q < r: it lags behind on a branch the responder has stored in full)
+            heights = [q, l1, l2][:nloc]
             peer.handle_get_blocks_message_received(ms.MessageHeader(1, 5, 0, 7), ms.GetBlocksMessage([X[h].hash() for h in heights]))
         finally:
             rpm.GET_BLOCKS_INVENTORY_SIZE = saved
@@ -171,7 +174,7 @@ def service(stored_branch: bool, a_fixed: int, rmax: int = 6, twin: bool = False
             if s < 1 or items != [b.hash() for b in active[s:s + len(items)]]:
                 return False
             # ... that the requester can attach: the parent of the first item is one of the requester's blocks
-            if active[s - 1].hash() not in [b.hash() for b in X]:
+            if active[s - 1].hash() not in [b.hash() for b in X[:q + 1]]:
                 return False
             # ... and as long as the batch size allows
             if len(items) != min(N, atop - s + 1):
@@ -179,12 +182,12 @@ def service(stored_branch: bool, a_fixed: int, rmax: int = 6, twin: bool = False
         else:
             # nothing offered only if the responder's active chain has nothing the requester lacks, or the requester's
             # tip is known to the responder and at least as high as its own
-            lacks = (active is Y) and a > f
-            if lacks and not (stored_branch and r >= atop):
+            lacks = ((active is Y) and a > f) or ((active is X) and q < atop)
+            if lacks and not (stored_branch and q >= atop):
                 return False
         return True
 
-    return check_service, {"a": a_fixed, "r": 3, "f": 1, "l1": 2, "l2": 0, "nloc": 3}
+    return check_service, {"a": a_fixed, "r": 3, "f": 1, "l1": 2, "l2": 0, "nloc": 3, "q": 3}
 
 
 def consumption(twin: bool = False, real: bool = False):
